@@ -4,12 +4,15 @@ P(dirs, base, ext) == [dirs |-> dirs, base |-> base, ext |-> ext]
 MCTree == { P(<<>>, "f.py", "py"), P(<<>>, "g.rs", "rs"),
             P(<<"a">>, "f.py", "py"), P(<<"b">>, "f.py", "py"), P(<<"b", "b">>, "g.py", "py"), P(<<"a", "b">>, "f.rs", "rs"),
             P(<<"src">>, "m.py", "py"), P(<<"src", "x y">>, "n.rs", "rs"), P(<<"gen">>, "f.py", "py"),
-            P(<<".hid">>, "h.py", "py"), P(<<"hid">>, "h.py", "py"), P(<<"src">>, "ig.py", "py") }
+            P(<<".hid">>, "h.py", "py"), P(<<"hid">>, "h.py", "py"), P(<<"src">>, "ig.py", "py"),
+            P(<<"pkg.py">>, "inner.rs", "rs") }       \* a directory whose own name looks like a file that globs match
 MCHidden == { P(<<".hid">>, "h.py", "py") }
 MCGitIgnored == { P(<<"src">>, "ig.py", "py") }
 MCGlobPool == { [form |-> "ext", arg |-> "py"], [form |-> "ext", arg |-> "rs"],
                 [form |-> "dir", arg |-> <<"src">>], [form |-> "dir", arg |-> <<"b">>], [form |-> "dir", arg |-> <<"a", "b">>],
                 [form |-> "name", arg |-> "f.py"], [form |-> "exact", arg |-> P(<<"src">>, "m.py", "py")],
                 [form |-> "exact", arg |-> P(<<"b", "b">>, "g.py", "py")],
-                [form |-> "dir", arg |-> <<".hid">>], [form |-> "exact", arg |-> P(<<".hid">>, "h.py", "py")] }
+                [form |-> "dir", arg |-> <<".hid">>], [form |-> "exact", arg |-> P(<<".hid">>, "h.py", "py")],
+                \* globs that match a directory's own path but none of the files in it
+                [form |-> "name", arg |-> "pkg.py"], [form |-> "exactdir", arg |-> <<"src">>] }
 =============================================================================
